@@ -151,6 +151,7 @@ func (s *Sys) ExploreJoint(opt JointOptions) *JointResult {
 		}
 		outs := make([]out, len(cands))
 		var wg sync.WaitGroup
+		var pb panicBox
 		sem := make(chan struct{}, opt.Workers)
 		for i := range cands {
 			wg.Add(1)
@@ -158,6 +159,7 @@ func (s *Sys) ExploreJoint(opt JointOptions) *JointResult {
 			go func(i int) {
 				defer wg.Done()
 				defer func() { <-sem }()
+				defer pb.guard()
 				c := cands[i]
 				h := append(append([]Event{}, c.parent.Hist...), c.e)
 				nw, locals, prev, _ := s.runHistory(h)
@@ -169,6 +171,7 @@ func (s *Sys) ExploreJoint(opt JointOptions) *JointResult {
 			}(i)
 		}
 		wg.Wait()
+		pb.rethrow()
 		res.Replays += len(cands)
 		var next []*JState
 		for i, o := range outs {
@@ -342,6 +345,7 @@ func (s *Sys) DeviationRuns(k, workers int, onStep func(prev, cur *LState, e Eve
 	exec := func(scripts []map[int]int) []item {
 		out := make([]item, len(scripts))
 		var wg sync.WaitGroup
+		var pb panicBox
 		sem := make(chan struct{}, workers)
 		for i := range scripts {
 			wg.Add(1)
@@ -349,6 +353,7 @@ func (s *Sys) DeviationRuns(k, workers int, onStep func(prev, cur *LState, e Eve
 			go func(i int) {
 				defer wg.Done()
 				defer func() { <-sem }()
+				defer pb.guard()
 				var stepCb func(prev, cur *LState, e Event, hist []Event)
 				if onStep != nil {
 					stepCb = func(prev, cur *LState, e Event, hist []Event) {
@@ -371,6 +376,7 @@ func (s *Sys) DeviationRuns(k, workers int, onStep func(prev, cur *LState, e Eve
 			}(i)
 		}
 		wg.Wait()
+		pb.rethrow()
 		return out
 	}
 	// directed strategies: starve / rush every node, LIFO, all deliveries before any Start
@@ -385,6 +391,7 @@ func (s *Sys) DeviationRuns(k, workers int, onStep func(prev, cur *LState, e Eve
 		}
 		pols = append(pols, named{"lifo", PolicyLIFO}, named{"starts-last", PolicyStartsLast})
 		var wg sync.WaitGroup
+		var pb panicBox
 		sem := make(chan struct{}, workers)
 		for _, np := range pols {
 			np := np
@@ -393,6 +400,7 @@ func (s *Sys) DeviationRuns(k, workers int, onStep func(prev, cur *LState, e Eve
 			go func() {
 				defer wg.Done()
 				defer func() { <-sem }()
+				defer pb.guard()
 				var stepCb func(prev, cur *LState, e Event, hist []Event)
 				if onStep != nil {
 					stepCb = func(prev, cur *LState, e Event, hist []Event) {
@@ -408,6 +416,7 @@ func (s *Sys) DeviationRuns(k, workers int, onStep func(prev, cur *LState, e Eve
 			}()
 		}
 		wg.Wait()
+		pb.rethrow()
 		runs += len(pols)
 	}
 	level := exec([]map[int]int{{}})
